@@ -32,7 +32,9 @@ GeoFacetsOfCell(m, k) == {{m.p[m.t[k][i]] : i \in F} : F \in RefFacets(m.kind)}
 GeoFacets(m)     == UNION {GeoFacetsOfCell(m, k) : k \in DOMAIN m.t}
 
 \* ---- well-formedness of the mesh part and of the tag part (evaluated first: guards every other clause)
+KnownKinds == {"line", "tri", "quad", "tet", "hex", "wedge"}
 MeshWellFormed(m) ==
+  /\ m.kind \in KnownKinds
   /\ \A k \in DOMAIN m.t : \A i \in DOMAIN m.t[k] : m.t[k][i] \in 1..Len(m.p)
   /\ \A k \in DOMAIN m.t : Len(m.t[k]) = NNodes(m.kind)
 TagIdsInRange(m) ==
